@@ -497,9 +497,10 @@ pub fn main(args: &util::Args) {
     }
     // ---- stream 2: minimised witnesses kept under corpus/C07 (and C03)
     let dir = util::scratch_dir("c07");
-    for sub in ["C07", "C03"] {
+    // (+ the coverage witnesses `corpus/C01/cov-*.gom`: shapes no generator produced, tools/coverage_audit.py)
+    for sub in ["C07", "C03", "C01"] {
         let Ok(rd) = std::fs::read_dir(util::verif_root().join("corpus").join(sub)) else { continue };
-        let mut files: Vec<_> = rd.filter_map(|e| e.ok().map(|e| e.path())).filter(|p| p.extension().is_some_and(|x| x == "gom" || x == "hang" || x == "witness")).collect();
+        let mut files: Vec<_> = rd.filter_map(|e| e.ok().map(|e| e.path())).filter(|p| p.extension().is_some_and(|x| x == "gom" || x == "hang" || x == "witness")).filter(|p| sub != "C01" || p.file_name().is_some_and(|n| n.to_string_lossy().starts_with("cov-"))).collect();
         files.sort();
         for f in files {
             let Ok(src) = std::fs::read_to_string(&f) else { continue };
@@ -744,6 +745,7 @@ pub fn gen_cfg(i: usize) -> crate::progen::Cfg {
         generic_fn_values: false,
         overlapping_impls: i % 3 != 1,
         result_only_generics: i % 4 != 3,
+        cov_shapes: i % 4 == 2,
         finite_polyrec: i % 5 != 2,
         ..Default::default()
     }
